@@ -27,94 +27,6 @@ import (
 
 func init() { props["C09"] = runC09 }
 
-type call09 struct {
-	tag    int
-	id     uint16
-	cancel context.CancelFunc
-	done   chan struct{}
-	resp   *[]byte
-	err    error
-	wireQ  []byte // the query as written on the connection
-}
-
-func (c *call09) wait(d time.Duration) bool {
-	select {
-	case <-c.done:
-		return true
-	case <-time.After(d):
-		return false
-	}
-}
-
-var tag09 int
-
-func startCall09(rx transport.ReservedExchanger, dead bool) *call09 {
-	tag09++
-	c := &call09{tag: tag09, id: uint16(tag09*13 + 5), done: make(chan struct{})}
-	ctx, cancel := context.WithTimeout(context.Background(), 5*time.Second)
-	c.cancel = cancel
-	if dead {
-		cancel()
-	}
-	q := mkQuery(c.id, c.tag)
-	go func() {
-		c.resp, c.err = rx.ExchangeReserved(ctx, q)
-		close(c.done)
-	}()
-	return c
-}
-
-// findWrite waits until the query with tag was written on fc (or the call ended).
-func findWrite09(fc *fakeConn, c *call09, d time.Duration) bool {
-	deadline := time.Now().Add(d)
-	for {
-		fc.mu.Lock()
-		for _, w := range fc.writes {
-			p := fc.payloadOf(w)
-			if len(p) >= 12 && tagOf(p) == c.tag {
-				c.wireQ = p
-				fc.mu.Unlock()
-				return true
-			}
-		}
-		fc.mu.Unlock()
-		select {
-		case <-c.done:
-			// one more look: the write may have happened right before the return
-			fc.mu.Lock()
-			for _, w := range fc.writes {
-				p := fc.payloadOf(w)
-				if len(p) >= 12 && tagOf(p) == c.tag {
-					c.wireQ = p
-				}
-			}
-			fc.mu.Unlock()
-			return c.wireQ != nil
-		default:
-		}
-		if time.Now().After(deadline) {
-			return false
-		}
-		time.Sleep(100 * time.Microsecond)
-	}
-}
-
-// probe09 counts how many reservations rsv admits right now and gives them back.
-func probe09(rsv func() (transport.ReservedExchanger, bool)) int {
-	var got []transport.ReservedExchanger
-	for i := 0; i < 100; i++ {
-		rx, _ := rsv()
-		if rx == nil {
-			break
-		}
-		got = append(got, rx)
-	}
-	for _, rx := range got {
-		rx.WithdrawReserved()
-	}
-	return len(got)
-}
-
 func runC09(r *Run) {
 	// ------------------------------------------------------------------ part 1
 	histories := r.N(40, 400)
